@@ -312,6 +312,9 @@ def obligations(tier, seed):
             for coverage in (False, True):
                 specs.append(spec(MOD, 'TileSourceAddr', 'tile-source/%s/L%d/%s' % (gname, level, 'cov' if coverage else 'nocov'),
                                   cfg=dict(grid=gname, level=level, coverage=coverage), cost=5))
+    # sources combined into one upstream request stay limited like their parts (C14 harness: coverage, range, SRS, formats kept;
+    # a request outside the shared coverage is not sent)
+    specs.append(spec('props.C14_merge', 'Compatible', 'combined-source-keeps-its-limits', cfg=dict(differs='shared')))
     specs.append(spec(MOD, 'WMSGetMap', 'twin/WMSGetMap', kind='witness', cfg=dict(srs_set='utm', query_srs='EPSG:25832', coverage=True, size=[256, 256], res=10.0)))
     specs.append(spec(MOD, 'FwdDimensions', 'twin/FwdDimensions', kind='witness', cfg=dict(fwd=['time'], keys=['time', 'elevation'])))
     specs.append(spec(MOD, 'TileSourceAddr', 'twin/TileSourceAddr', kind='witness', cfg=dict(grid='utm_ul', level=2, coverage=True)))
